@@ -39,6 +39,22 @@ def _setup(ctx, arrays):
     return w, lam, [m1, m2, m3, m1]
 
 
+def _calc_site(ctx, I, calc, default):
+    from ptstat.symval import Closure, SymObj, BoundMethod
+    q = None
+    if isinstance(calc, Closure):
+        q = calc.qual
+    elif isinstance(calc, BoundMethod) and isinstance(calc.fn, Closure):
+        q = calc.fn.qual
+    elif isinstance(calc, SymObj) and calc.cls is not None:
+        m = calc.cls.lookup("__call__")
+        q = getattr(m, "qual", None)
+    try:
+        return fsite(ctx, q) if q else default
+    except AnalysisError:
+        return default
+
+
 def _explicit(ctx, w, mats, rho, ws, names, label, site, csite):
     """wavelengths as an explicit numpy vector [lam1, lam2] (arrays are objects here: in-place updates and aliasing are
     modelled): the calculator must equal neutron_sld at each wavelength separately, on every call"""
@@ -71,7 +87,7 @@ def run(ctx):
     rho = sp.Symbol("rho", positive=True)
     ws = sp.symbols("w1:5", positive=True)
     site = fsite(ctx, "nsf.neutron_composite_sld")
-    csite = fsite(ctx, "nsf.neutron_composite_sld._compute")
+    csite = site       # refined below to where the returned calculator is defined (a closure or a callable object)
     names = ("sld_re", "sld_im", "sld_inc")
     for label, arrays in (("scalar wavelength", False), ("array wavelength", True), ("length-2 wavelength vector", None)):
         w, lam, mats = _setup(ctx, bool(arrays))
@@ -80,6 +96,7 @@ def run(ctx):
             _explicit(ctx, w, mats, rho, ws, names, label, site, csite)
             continue
         calc = I.call(I.global_name("nsf", "neutron_composite_sld"), [list(mats)], {"wavelength": lam})
+        csite = _calc_site(ctx, I, calc, site)
         r = raises(lambda: I.call(calc, [Vec(ws)], {"density": rho}))
         if r is not None:
             ctx.fail("R2", f"_compute broadcasts weights against the per-material arrays [{label}]",
